@@ -34,6 +34,8 @@ def run(repo, rep):
         raise AnalysisError("register_command_stream_generator: fewer than 8 calls name both a register family and an operand")
     rep.clause("C02-r", "a resize of a 1x1 feature map becomes an ADD with a zero constant of the OFM's shape (an operand smaller than the OFM without broadcast bits is read past its end)")
     rule_resize_1x1_constant(repo, rep)
+    rep.clause("C02-t", "intermediates of a lowered binary operator that combine both operands are shaped like the result (not cloned from one fixed operand)")
+    rule_mixed_intermediates(repo, rep)
     rep.clause("C02-s", "OFM boxes of depth slices are clamped to the operator's write window [ofm_start.depth, ofm_end.depth] (a channel-axis concatenation input is not read beyond its own depth) [rule shared with C10-a]")
     from . import c10 as _c10
 
@@ -920,3 +922,83 @@ def rule_resize_1x1_constant(repo, rep):
         ok_vals = bool(zc) and all("ofm_shapes[0]" in origin(c.args[0]) or "ofm.shape" in origin(c.args[0]) for c in zc)
     rep.check(ok_shape and ok_vals, "C02-r", site, "the zero operand has the OFM's shape", f"shape `{shp}`, values `{vals}`: the ADD keeps its HxWxC OFM while both operands are 1x1xC with no broadcast: "
               "the constant is read as an HxWxC feature map, past the end of the constants tensor (demonstrated: 1x1x16 -> 160x160 reads [0, 5072) of 2032 bytes)")
+
+
+def rule_mixed_intermediates(repo, rep):
+    """(t) A rewrite that lowers a binary operator builds intermediate operators by hand and gives each an output tensor cloned from an
+    existing tensor. An intermediate that combines *both* source operands (directly or through earlier intermediates) has the shape of the
+    broadcast result; cloning it from one fixed operand gives the operand's shape - the smaller one when that operand is the broadcast one -
+    and the final operator then has an OFM larger than both inputs, for which no broadcast bit is set: its constant second operand is read
+    as a full feature map, past the end of its tensor. Dataflow over the function: sides of add_input_tensor arguments are propagated
+    through set_output_tensor; the clone source of a mixed tensor must not be a single-side operand name."""
+    import re as _re
+
+    go = repo.mod("tflite_graph_optimiser")
+    n = 0
+
+    def side(name):
+        t = set(_re.split(r"[_.]+", name.lower()))
+        if "ifm2" in t or "input2" in t:
+            return {"ifm2"}
+        if "ifm" in t or "input1" in t:
+            return {"ifm"}
+        return set()
+
+    for q, fn in go.functions.items():
+        params = [a.arg for a in fn.args.args]
+        if not params or params[0] != "op":
+            continue
+        unpack = [a for a in ast.walk(fn) if isinstance(a, ast.Assign) and isinstance(a.targets[0], ast.Tuple) and str(norm(a.value)) in ("op.get_ifm_ifm2_ofm()", "op.get_ifm_ifm2_weights_ofm()")]
+        if not unpack:
+            continue
+        sides = {}
+        clones = {}
+        for a in ast.walk(fn):
+            if isinstance(a, ast.Assign) and len(a.targets) == 1 and isinstance(a.targets[0], ast.Name) and isinstance(a.value, ast.Call) and isinstance(a.value.func, ast.Attribute) and a.value.func.attr == "clone":
+                clones[a.targets[0].id] = (a.value.func.value, a.lineno)
+        for nm in list(clones) + ["ifm", "ifm2"]:
+            sides[nm] = set(side(nm))
+        # operators built by hand: <var> = Operation(..) followed by add_input_tensor / set_output_tensor on <var>
+        ops = {}
+        for c in ast.walk(fn):
+            if isinstance(c, ast.Call) and isinstance(c.func, ast.Attribute) and isinstance(c.func.value, ast.Name) and c.func.attr in ("add_input_tensor", "set_output_tensor") and c.args and isinstance(c.args[0], ast.Name):
+                ops.setdefault((c.func.value.id, _owner_line(fn, c.func.value.id, c.lineno)), {"in": [], "out": None})
+                d = ops[(c.func.value.id, _owner_line(fn, c.func.value.id, c.lineno))]
+                if c.func.attr == "add_input_tensor":
+                    d["in"].append(c.args[0].id)
+                else:
+                    d["out"] = c.args[0].id
+        changed = True
+        while changed:
+            changed = False
+            for d in ops.values():
+                if d["out"] is None:
+                    continue
+                s_in = set()
+                for i_ in d["in"]:
+                    s_in |= sides.get(i_, set())
+                if not s_in <= sides.get(d["out"], set()) or (d["out"] not in sides):
+                    new = sides.get(d["out"], set()) | s_in
+                    if new != sides.get(d["out"]):
+                        sides[d["out"]] = new
+                        changed = True
+        for d in ops.values():
+            out = d["out"]
+            if out in clones and sides.get(out, set()) >= {"ifm", "ifm2"}:
+                src, ln = clones[out]
+                n += 1
+                single = isinstance(src, ast.Name) and src.id in ("ifm", "ifm2")
+                rep.check(not single, "C02-t", f"ethosu/vela/tflite_graph_optimiser.py:{q}", f"`{out}` combines both operands and is not cloned from one fixed operand (`{str(norm(src))}.clone(..)`)",
+                          f"`{out} = {str(norm(src))}.clone(..)` (line {ln}): when `{str(norm(src))}` is the broadcast operand the intermediate is 1x1xC and the last operator's OFM is larger than both of its inputs: "
+                          "SQUARED_DIFFERENCE([1,1,1,16], [1,200,200,16]) reads the [1] multiplier constant as 200x200x1: bytes [0, 1588) of a 720-byte constants tensor")
+    if n < 1:
+        raise AnalysisError("tflite_graph_optimiser: no hand-built intermediate that combines both operands found")
+
+
+def _owner_line(fn, var, lineno):
+    """Line of the last `var = Operation(..)` / `var = create_..(..)` binding at or before lineno (distinguishes re-used variable names)."""
+    best = 0
+    for a in ast.walk(fn):
+        if isinstance(a, ast.Assign) and len(a.targets) == 1 and isinstance(a.targets[0], ast.Name) and a.targets[0].id == var and a.lineno <= lineno:
+            best = max(best, a.lineno)
+    return best
